@@ -1,6 +1,6 @@
 (* C09 — property theorems.  Statements only: each is closed by [exact] of a lemma proved elsewhere.
    [gen_tables], [wrapper] are the definitions regenerated from /repo by the translators on every run. *)
-From QT Require Import C09.Model C09.ModelThm C09.GenOk Gen.C09Gen.
+From QT Require Import C09.Model C09.ModelThm C09.GenOk C09.Events Gen.C09Gen.
 Open Scope string_scope.
 Open Scope Z_scope.
 
@@ -47,6 +47,28 @@ Theorem C09_unknown_404 :
   forall fl t m l json, route_known gen_tables fl t = false -> handle gen_tables fl t m l json = Status 404.
 Proof. exact (not_known_404 gen_tables). Qed.
 Print Assumptions C09_unknown_404.
+
+(* POST /devices/{name}/events keeps the property by its own authentication (its wrapper level is none): the event
+   reaches the slave iff the slave exists, is permanently offline, and the presented token is a fresh device-origin
+   token whose signature verifies under the slave's admin password hash; otherwise 401 (unknown slave: 404) *)
+Theorem C09_events_served_iff :
+  forall s c, events_decide s c = EvServed
+              <-> s_exists s = true /\ token_verifies s c = true /\ s_poll s = false /\ s_listen s = false.
+Proof. exact events_served_iff. Qed.
+Print Assumptions C09_events_served_iff.
+
+Theorem C09_events_unverified_401 :
+  forall s c, s_exists s = true -> token_verifies s c = false -> events_decide s c = EvStatus 401.
+Proof. exact events_unverified_401. Qed.
+Print Assumptions C09_events_unverified_401.
+
+Theorem C09_events_unknown_404 : forall s c, s_exists s = false -> events_decide s c = EvStatus 404.
+Proof. exact events_unknown_404. Qed.
+Print Assumptions C09_events_unknown_404.
+
+Theorem C09_events_model_is_spec : forall s c, events_decide s c = events_spec s c.
+Proof. exact events_decide_spec. Qed.
+Print Assumptions C09_events_model_is_spec.
 
 (* non-vacuity, with every optional feature on: PATCH /ports/id/value reaches patch_port_value (normal): served for
    normal, 403 for view-only, 401 without authentication; POST /reset is refused to normal; an unknown shape is 404 *)
